@@ -476,7 +476,7 @@ PROPS['C20'] = dict(
     jobs=[
         dict(name='pipelab', bin='pipelab', variant='asan', mode='c20',
              quick=40000, thorough=2000000,
-             require=['c20.twin_runs_compared', 'c20.fsrc_cases_with_data', 'c20.getter_checked',
+             require=['c20.twin_runs_compared', 'c20.fsrc_cases_with_data', 'c20.blit_cases', 'c20.getter_checked',
                       'c20.setter_rejected', 'c20.setter_accepted']),
     ],
 )
